@@ -1,5 +1,6 @@
 import ReplicatProofs.Lemmas.SymBasic
 import ReplicatProofs.Lemmas.SymB64
+import ReplicatProofs.Lemmas.SymNames
 import ReplicatProofs.Properties.C01
 /-!
 # C14 — what replicat writes follows the documented repository format
@@ -155,6 +156,166 @@ file's references, in counter order, are the file's byte range of the padded str
 theorem records_tile (s : Bytes) (f : Span) (hf : f.1 ≤ f.2) (lens : List Nat) (hsum : lens.sum = s.length) (hfe : f.2 ≤ s.length) :
     ((planFrom 0 (fileRefs f 0 (spansFrom 0 lens))).map (partData (chunksOf s lens))).flatten = slice s f.1 f.2 :=
   C01.refs_tile s f hf lens hsum hfe
+
+/-! ## History level: what the readers return on the store a whole history produces
+
+`run a ops` is the store after `init` with arguments `a` and the commands `ops` (add-key shared / independent, snapshots by any
+key, removals); `taken a ops` lists what every snapshot command captured (`Taken`: the key that wrote it, the plaintext chunks
+in stream order, the private data, the two nonces) and `wfHist a ops` says that every snapshot's file list is path-unique with
+references inside its chunk table and that no removal takes a chunk of a snapshot it leaves behind (`opOk`; what C02 / C08
+establish for `delete` / `clean`).  These are definitions of `ReplicatModel/Sym.lean`, executed by the driver (`sym.run_restore`)
+on the histories the real `Repository` is driven through. -/
+
+/-- the key recorded for a snapshot is key number `t.user` of the history -/
+theorem taken_by_key_of_history (a : InitArgs) (ops : List Op) (hwf : wfHist a ops = true) (t : Taken) (ht : t ∈ taken a ops) :
+    ∃ u, (run a ops).users[t.user]? = some u ∧ t.p = u.props a.encrypted := by
+  obtain ⟨⟨u, hu, hp⟩, _⟩ := (ti_run a ops hwf).ok t ht
+  rw [run_encrypted] at hp
+  exact ⟨u, hu, hp⟩
+
+/-- **Restore after any well-formed history.**  For every snapshot `t` taken in the history whose object is still present in
+the final store, `restore` by its name with the key that wrote it returns normally, and returns exactly what was recorded when
+it was taken: per file (in recorded order) the path, the captured ranges of the captured chunk plaintexts in counter order
+(`recordedFiles` = `honestParts` of the de-duplicated plaintext table) and the metadata record handed to `restore_metadata`.
+Whatever else the history did — other keys, other families, de-duplicated or re-uploaded chunks, later removals — is invisible.
+(That the ranges tile the file is `records_tile`; that nothing ELSE can be returned from a tampered store is C04.) -/
+theorem restore_after_run (a : InitArgs) (ops : List Op) (hwf : wfHist a ops = true) (t : Taken) (ht : t ∈ taken a ops)
+    (hpres : lookup (run a ops).store t.loc ≠ none) :
+    ∃ out, recordedFiles t.contents t.data.files = some out ∧
+      restoreMd t.p (run a ops).store t.name = .ok out ∧
+      restore t.p (run a ops).store t.name = .ok (out.map fun w => (w.1, w.2.1)) := by
+  obtain ⟨out, h1, h2⟩ := restoreMd_taken (hinv_run a ops) (ti_run a ops hwf) t ht hpres
+  refine ⟨out, h1, h2, ?_⟩
+  rw [restore_eq_restoreMd, h2]
+  rfl
+
+/-- … spelled out per column: the restored paths and metadata records are the recorded ones in recorded order, and every
+file's parts are `honestParts` of its references sorted by counter.  The metadata record is what `restore_metadata` receives;
+which timestamps it then sets is `legacy_metadata`. -/
+theorem restore_after_run_columns (a : InitArgs) (ops : List Op) (hwf : wfHist a ops = true) (t : Taken) (ht : t ∈ taken a ops)
+    (hpres : lookup (run a ops).store t.loc ≠ none) :
+    ∃ out, restoreMd t.p (run a ops).store t.name = .ok out ∧
+      out.map (fun w => (w.1, w.2.2)) = t.data.files.map (fun f => (f.path, f.md)) ∧
+      out.map (fun w => some w.2.1) = t.data.files.map (fun f => honestParts t.contents (isort Sym.refLE f.refs)) := by
+  obtain ⟨out, h1, h2, _⟩ := restore_after_run a ops hwf t ht hpres
+  exact ⟨out, h2, recordedFiles_md _ _ _ h1, recordedFiles_parts _ _ _ h1⟩
+
+/-- **Another key of the same family** (any key `j ≠ t.user` of the history with the same private section — added with
+`--shared`, directly or transitively): `_load_snapshots` by the snapshot's name yields its chunk table and no private data, and
+`restore` writes nothing (as `read_written_shared`, now for the whole store). -/
+theorem restore_after_run_shared (a : InitArgs) (ops : List Op) (hwf : wfHist a ops = true) (he : a.encrypted = true)
+    (t : Taken) (ht : t ∈ taken a ops) (hpres : lookup (run a ops).store t.loc ≠ none)
+    (j : Nat) (v : User) (hj : (run a ops).users[j]? = some v) (hne : j ≠ t.user) (hfam : v.sh = t.p.sh) :
+    loadBodies (v.props true) t.name (snapEntries (run a ops).store) = .ok [(t.table, none)] ∧
+    restoreMd (v.props true) (run a ops).store t.name = .ok [] ∧
+    restore (v.props true) (run a ops).store t.name = .ok [] := by
+  obtain ⟨u, hu, hp⟩ := taken_by_key_of_history a ops hwf t ht
+  have hi := hinv_run a ops
+  have hk : (v.props true).userKey ≠ t.p.userKey := by
+    rw [hp]
+    exact userKey_ne hi.hu hu hj (fun e => hne e.symm) _
+  have hte : t.p.encrypted = true := by rw [hp]; exact he
+  obtain ⟨h1, h2⟩ := shared_taken hi t hpres (v.props true) hte rfl hfam hk
+  refine ⟨h1, h2, ?_⟩
+  rw [restore_eq_restoreMd, h2]
+  rfl
+
+/-- **A key of another family** (any key of the history whose MAC key differs — added without `--shared`, or shared from
+such a key): nothing of the snapshot is visible — the listing skips it (tag check) and `restore` writes nothing. -/
+theorem restore_after_run_independent (a : InitArgs) (ops : List Op) (hwf : wfHist a ops = true) (he : a.encrypted = true)
+    (t : Taken) (ht : t ∈ taken a ops) (hpres : lookup (run a ops).store t.loc ≠ none)
+    (v : User) (hfam : v.sh.macKey ≠ t.p.sh.macKey) :
+    loadBodies (v.props true) t.name (snapEntries (run a ops).store) = .ok [] ∧
+    restoreMd (v.props true) (run a ops).store t.name = .ok [] ∧
+    restore (v.props true) (run a ops).store t.name = .ok [] := by
+  obtain ⟨u, _, hp⟩ := taken_by_key_of_history a ops hwf t ht
+  have hte : t.p.encrypted = true := by rw [hp]; exact he
+  obtain ⟨h1, h2⟩ := independent_taken (hinv_run a ops) t hpres (v.props true) hte rfl hfam
+  refine ⟨h1, h2, ?_⟩
+  rw [restore_eq_restoreMd, h2]
+  rfl
+
+/-- **Two keys of a history are in the same family or have different MAC keys** — so the two theorems above cover every
+other key of the history. -/
+theorem families_partition (a : InitArgs) (ops : List Op) (u v : User) (hu : u ∈ (run a ops).users) (hv : v ∈ (run a ops).users) :
+    u.sh = v.sh ∨ u.sh.macKey ≠ v.sh.macKey := by
+  by_cases h : u.sh.macKey = v.sh.macKey
+  · exact Or.inl ((hinv_run a ops).hu.fam u hu v hv h)
+  · exact Or.inr h
+
+/-- **No name collisions** (EVERY history, no hypothesis): two entries ever emitted under one name — backend uploads and key
+files — carry the same content, up to the nonce of a repeated AEAD encryption of the same plaintext under the same key (a chunk
+that was removed and uploaded again). -/
+theorem names_unique (a : InitArgs) (ops : List Op) (e1 e2 : Term × Term) (h1 : e1 ∈ written a ops) (h2 : e2 ∈ written a ops)
+    (hn : e1.1 = e2.1) : e1.2 = e2.2 ∨ ∃ k n n' m, e1.2 = enc k n m ∧ e2.2 = enc k n' m :=
+  sameUpToNonce_spec (log_names_unique (hinv_run a ops) e1 e2 h1 h2 hn)
+
+/-- … and in a history without removals the contents are EQUAL: nothing is ever emitted twice under one name with other bytes. -/
+theorem names_unique_no_removal (a : InitArgs) (ops : List Op) (hops : ∀ op ∈ ops, op.isRemove = false) (e1 e2 : Term × Term)
+    (h1 : e1 ∈ written a ops) (h2 : e2 ∈ written a ops) (hn : e1.1 = e2.1) : e1.2 = e2.2 := by
+  have hnr := nr_run a ops hops
+  have hi := hinv_run a ops
+  rcases hnr e1 h1 with ⟨i, hk⟩ | hl1
+  · exact hi.hl.keyUniq e1 h1 e2 h2 i hk (by rw [← hn]; exact hk)
+  · rcases hnr e2 h2 with ⟨i, hk⟩ | hl2
+    · exact hi.hl.keyUniq e1 h1 e2 h2 i (by rw [hn]; exact hk) hk
+    · rw [hn, hl2] at hl1
+      exact (Option.some.inj hl1).symm
+
+/-- **The store is a map** (EVERY history): no location occurs twice, every stored object was emitted, and `lookup` finds
+exactly the stored pairs — which is what makes `run` a function from locations to objects. -/
+theorem store_is_map (a : InitArgs) (ops : List Op) :
+    ((run a ops).store.map (·.1)).Nodup ∧ (∀ e ∈ (run a ops).store, e ∈ written a ops) ∧
+    ∀ loc obj, (loc, obj) ∈ (run a ops).store ↔ lookup (run a ops).store loc = some obj := by
+  have hi := hinv_run a ops
+  exact ⟨hi.hs.nodup, hi.hs.sub, fun loc obj => ⟨lookup_of_mem_nodup hi.hs.nodup, lookup_some_mem⟩⟩
+
+/-! non-vacuity of the history-level theorems: an encrypted repository with three keys — key 1 shared from key 0, key 2
+independent —, four snapshots by keys 0, 1, 2, 0, the first one removed together with the chunk only it uses.  The history is
+well formed; the snapshots of keys 1, 2 and the second of key 0 are present; each restores for its owner to what was recorded;
+key 0 sees the table of key 1's snapshot without data, key 2 nothing of it.  The last snapshot uploads chunk `sec 1` AGAIN (it
+was removed), so `written` holds two different ciphertexts under that chunk's name: the strict form of `names_unique` is false
+for histories with removals. -/
+private def exA : InitArgs := ⟨true, pub 10, pub 11, pub 12, sec 100⟩
+private def exD0 : Data :=
+  ⟨1, [⟨sec 50, [⟨1, 2, 0, 3⟩, ⟨0, 1, 0, 4⟩], Term.hash (sec 60), sec 70⟩, ⟨sec 51, [⟨0, 1, 4, 8⟩], Term.hash (sec 61), sec 71⟩], sec 80⟩
+private def exD1 : Data := ⟨2, [⟨sec 50, [⟨1, 2, 0, 2⟩, ⟨0, 1, 0, 5⟩], Term.hash (sec 62), sec 72⟩], nil⟩
+private def exOps0 : List Op :=
+  [.addKey 0 true (pub 11) (pub 12) (sec 101), .addKey 0 false (pub 11) (pub 13) (sec 102),
+   .snapshot 0 [sec 1, sec 2, sec 1] exD0, .snapshot 1 [sec 2, sec 3] exD1]
+private def exRemove : Op :=
+  match taken exA exOps0 with
+  | t0 :: _ => .remove [t0.loc, chunkLoc t0.p (digest (sec 1))]
+  | _ => .remove []
+private def exOps : List Op :=
+  exOps0 ++ [exRemove, .snapshot 2 [sec 1] ⟨3, [⟨sec 52, [⟨0, 1, 0, 1⟩], nil, sec 73⟩], nil⟩, .snapshot 0 [sec 1] ⟨4, [], nil⟩]
+private def exStore : Store := (run exA exOps).store
+private def exProps (i : Nat) : Props := ((run exA exOps).users.getD i default).props true
+
+example :
+    wfHist exA exOps = true ∧
+    (taken exA exOps).map (fun t => (t.user, (lookup exStore t.loc).isSome)) = [(0, false), (1, true), (2, true), (0, true)] := by
+  decide +kernel
+
+set_option synthInstance.maxSize 1024 in
+example :
+    (taken exA exOps).map (fun t => restoreMd t.p exStore t.name) =
+      [.ok [], .ok [(sec 50, [(sec 2, 0, 5), (sec 3, 0, 2)], sec 72)], .ok [(sec 52, [(sec 1, 0, 1)], sec 73)], .ok []] ∧
+    (taken exA exOps).map (fun t => restoreMd (exProps 2) exStore t.name) =
+      [.ok [], .ok [], .ok [(sec 52, [(sec 1, 0, 1)], sec 73)], .ok []] := by
+  decide +kernel
+
+set_option synthInstance.maxSize 1024 in
+example :
+    (taken exA exOps).map (fun t => loadBodies (exProps 0) t.name (snapEntries exStore)) =
+      [.ok [], .ok [([digest (sec 2), digest (sec 3)], none)], .ok [], .ok [([digest (sec 1)], some ⟨4, [], nil⟩)]] := by
+  decide +kernel
+
+/-- **The strict form of `names_unique` is false once chunks are removed and uploaded again** (model and code: the second
+upload is a fresh encryption): in the history above two entries of `written` have the same name and different contents. -/
+theorem reupload_changes_ciphertext :
+    ∃ e1 ∈ written exA exOps, ∃ e2 ∈ written exA exOps, e1.1 = e2.1 ∧ e1.2 ≠ e2.2 := by
+  decide +kernel
 
 /-- non-vacuity: concrete base64 texts (`"Zm9v"`, `"Zm8="`, `"Zg=="`), a legacy and a modern metadata record -/
 example :
